@@ -381,10 +381,19 @@ def run_resampling(ctx):
                 hi = [l + float(rng.uniform(0.5, 3)) for l in lo]
                 d1 = odl.uniform_discr(lo, hi, shape1)
                 d2 = odl.uniform_discr(lo, hi, shape2)
+                same_shape = ''
+                if rep % 3 == 2:
+                    # same set, same number of cells, other nodes (grid points on the boundary / on one side only)
+                    d2 = odl.uniform_discr(lo, hi, shape1, nodes_on_bdry=True if rep % 2 == 0 else [(True, False)] * nd)
+                    same_shape = ';same-shape-other-nodes'
+                elif rep % 3 == 1 and nd <= 2:
+                    d1 = odl.uniform_discr(lo, hi, shape1, nodes_on_bdry=[(False, True)] * nd)
+                    d2 = odl.uniform_discr(lo, hi, shape1)
+                    same_shape = ';same-shape-other-nodes'
                 mixed = len(set(schemes)) > 1
                 # the scheme is given as a single string (all axes equal, rep even), or as a per-axis sequence
                 interp = schemes[0] if (not mixed and rep % 2 == 0) else list(schemes)
-                cfg = '%dd;%s;%s' % (nd, 'mixed' if mixed else schemes[0], 'string' if isinstance(interp, str) else 'sequence')
+                cfg = '%dd;%s;%s' % (nd, 'mixed' if mixed else schemes[0], 'string' if isinstance(interp, str) else 'sequence') + same_shape
                 ctx.case('resampling;' + cfg, (shape1, shape2, schemes))
                 ctx.ev('resampling')
                 try:
@@ -425,19 +434,24 @@ def run_resampling(ctx):
                     ctx.violation('Resampling', cfg, 'raises:' + type(e).__name__, message=str(e)[:200])
     # linear_deform with small displacements (points stay inside the hull)
     from odl.deform import linear_deform
-    for nd in (1, 2):
-        for interp in ('nearest', 'linear'):
+    for nd, interp, dlayout in [(n_, i_, l_) for n_ in (1, 2, 3) for i_ in ('nearest', 'linear') for l_ in ('C', 'F', 'mixed') if not (n_ == 1 and l_ != 'C')]:
+        if True:
             idx += 1
             if not ctx.mine(idx):
                 continue
-            sp = odl.uniform_discr([0.0] * nd, [1.0, 2.0][:nd], (6, 5)[:nd])
-            cfg = '%dd;%s' % (nd, interp)
+            sp = odl.uniform_discr([0.0] * nd, [1.0, 2.0, 1.5][:nd], (6, 5, 4)[:nd])
+            cfg = '%dd;%s' % (nd, interp) + ('' if dlayout == 'C' else ';displacement-layout=' + dlayout)
             ctx.case('linear_deform;' + cfg, 0)
             ctx.ev('resampling')
             try:
                 templ = util.rand_element(sp, rng)
+                if dlayout != 'C':
+                    templ = sp.element(np.asfortranarray(np.asarray(templ)))
                 h = sp.cell_sides
-                disp = sp.tangent_bundle.element([sp.element(rng.uniform(-0.4, 0.4, size=sp.shape) * h[a]) for a in range(nd)])
+                # displacement components stored in C order, Fortran order, or one of each
+                disp = sp.tangent_bundle.element([sp.element(np.asarray(rng.uniform(-0.4, 0.4, size=sp.shape) * h[a],
+                                                                        order='F' if (dlayout == 'F' or (dlayout == 'mixed' and a == 0)) else 'C'))
+                                                  for a in range(nd)])
                 res = linear_deform(templ, disp, interp)
                 out = np.full(sp.shape, np.nan)
                 r2 = linear_deform(templ, disp, interp, out=out)
